@@ -198,10 +198,11 @@ struct JSON {
                 case JSONotation::QuoteChar: {
                     ++offset;
 
-                    const Char_T *str = (content + offset);
-                    SizeT         len = JSONUtils::UnEscape(str, (length - offset), stream);
+                    const Char_T *str        = (content + offset);
+                    bool          terminated = false;
+                    SizeT         len        = JSONUtils::UnEscape(str, (length - offset), stream, &terminated);
 
-                    if (len != 0) {
+                    if (terminated) {
                         offset += len;
                         --len;
 
